@@ -363,6 +363,9 @@ func runC10(w *World, r *Report, tier string) {
 			isSendRaw := w.isCallTo("xmpp.Sender.SendRaw")
 			isSend := w.isCallTo("xmpp.Sender.Send", "xmpp.Sender.SendIQ")
 			walkPaths(Loc{lp.body, 0}, isHeader, nil, 5000, func(path []ssa.Instruction, end pathEnd) {
+				if !isHeader(path[len(path)-1]) {
+					return // leaves the loop (an error stops the retransmission): not a completed iteration
+				}
 				nIter++
 				if countOn(path, isSendRaw) != 1 {
 					bad = fmt.Sprintf("an iteration re-sends %d time(s) through SendRaw", countOn(path, isSendRaw))
@@ -392,6 +395,13 @@ func runC10(w *World, r *Report, tier string) {
 						if mi, ok := a.(*ssa.MakeInterface); ok && w.typeStr(mi.X.Type()) == "stanza.SMRequest" {
 							k++
 						}
+					}
+				}
+				// a path that reports a failed retransmission does not ask for a new acknowledgement
+				if ret, ok := path[len(path)-1].(*ssa.Return); ok && len(ret.Results) == 1 {
+					res := rres(path, ret)[0]
+					if !isNilConst(res) && pathAsserts(path, func(c ssa.Value, truth bool) bool { return assertsNonNil(c, truth, res) }) {
+						return
 					}
 				}
 				nReq++
